@@ -262,3 +262,64 @@ Proof. vm_compute. reflexivity. Qed.
 
 Theorem crun_inv_init : forall evs me, cinv (crun_state (cinit me) evs).
 Proof. intros. apply crun_inv, cinv_init. Qed.
+
+(** ** the 64-bit counter: [nextControlID] is a Go uint64 while [c_next] is an
+    unbounded [N].  Every event raises the counter by at most one, so along
+    every run of fewer than 2^64 events the unbounded counter, and every id
+    in use, is below 2^64: the wrapped and the unbounded counters agree, and
+    no id handed out is the reserved value 0. *)
+Lemma cstep_next_le : forall s e, c_next s <= c_next (st_of (cstep s e)) <= c_next s + 1.
+Proof.
+  intros s e. unfold st_of.
+  destruct e as [from id target path tag | from id tag | target tag | id | target tag | id | | p | p | p b]; simpl;
+    repeat match goal with
+           | |- context [if ?c then _ else _] => destruct c; simpl
+           | |- context [match ?x with _ => _ end] => destruct x; simpl
+           end; lia.
+Qed.
+
+Lemma crun_next_le : forall evs s,
+  c_next s <= c_next (crun_state s evs) <= c_next s + N.of_nat (length evs).
+Proof.
+  induction evs as [|e r IH]; intros s; cbn [crun_state length].
+  - lia.
+  - specialize (IH (st_of (cstep s e))). pose proof (cstep_next_le s e) as H.
+    rewrite Nat2N.inj_succ. lia.
+Qed.
+
+Theorem counter_fits_uint64 : forall evs me,
+  N.of_nat (length evs) < 2 ^ 64 ->
+  let s := crun_state (cinit me) evs in
+  c_next s mod 2 ^ 64 = c_next s /\
+  (forall id, In id (c_pending s) -> id < 2 ^ 64) /\
+  (forall id v, mget id (c_fwd s) = Some v -> id < 2 ^ 64).
+Proof.
+  intros evs me Hlen s.
+  pose proof (crun_next_le evs (cinit me)) as Hn. cbn [cinit c_next] in Hn. fold s in Hn.
+  destruct (crun_inv_init evs me) as [Hp Hf _]. fold s in Hp, Hf.
+  assert (Hlt : c_next s < 2 ^ 64) by lia.
+  split; [apply N.mod_small; exact Hlt|]. split.
+  - intros id Hin. specialize (Hp id Hin). lia.
+  - intros id v Hg. specialize (Hf id v Hg). lia.
+Qed.
+
+(** an id handed out by a step is the successor of the counter, hence never 0
+    and, with the bound above, never a wrapped value *)
+Theorem allocated_ids_nonzero : forall s from id target path tag h fid rest target' tag',
+  (out_of (cstep s (CReq from id target path tag)) = [(h, MReq fid target rest tag)] -> fid = c_next s + 1) /\
+  (snd (cstep s (COriginate target' tag')) <> 0 -> snd (cstep s (COriginate target' tag')) = c_next s + 1).
+Proof.
+  intros. split.
+  - unfold out_of; simpl.
+    destruct ((target =? 0) || (target =? c_me s)); simpl.
+    { unfold cemit. destruct (csend_ok s from); simpl; intro H; inversion H. }
+    destruct (match path with [] => if memN target (c_conns s) then Some target else None | h0 :: _ => Some h0 end) as [h0|]; simpl.
+    2:{ unfold cemit. destruct (csend_ok s from); simpl; intro H; inversion H. }
+    destruct (negb (memN h0 (c_conns s))); simpl.
+    { unfold cemit. destruct (csend_ok s from); simpl; intro H; inversion H. }
+    match goal with |- context [if ?c then _ else _] => destruct c end; simpl.
+    + intro H; inversion H; reflexivity.
+    + unfold cemit. destruct (csend_ok s from); simpl; intro H; inversion H.
+  - simpl. destruct (negb (memN target' (c_conns s))); simpl; [intro H; contradiction H; reflexivity|].
+    destruct (csend_ok s target'); simpl; [reflexivity | intro H; contradiction H; reflexivity].
+Qed.
